@@ -382,6 +382,11 @@ type sys struct {
 	poisoned     bool
 	reloaded     bool // a reload happened on this path
 	key          string
+	// fork: a second directory built from the LIVE GetNode() object of the first;
+	// the first stays alive as shadow and must keep showing its own entries
+	shadow      uio.Directory
+	shadowModel map[string]int
+	shadowCid   cid.Cid
 	convertedNow bool   // the last operation converted basic<->HAMT
 	wasHamt      bool   // the directory has been a HAMT at some point of this history
 	lostBy       string // operation and conversion in which the configured threshold disappeared
@@ -471,8 +476,49 @@ func (s *sys) Key() string {
 	} else {
 		k += "|root-error=" + err.Error()
 	}
+	if s.shadow != nil {
+		d, m := s.dir, s.model
+		s.dir, s.model = s.shadow, s.shadowModel
+		k += "|SHADOW M{" + s.modelKey() + "}|" + s.state()
+		if nd, err := s.dir.GetNode(); err == nil {
+			k += "|root=" + nd.Cid().String()
+		}
+		s.dir, s.model = d, m
+	}
 	s.key = k
 	return k
+}
+
+// checkShadow: the directory a fork was taken from must still show exactly the
+// entries it had at the fork, whatever happened to the fork since (no aliasing).
+func (s *sys) checkShadow() *eng.Violation {
+	d, m := s.dir, s.model
+	s.dir, s.model = s.shadow, s.shadowModel
+	defer func() { s.dir, s.model = d, m }()
+	const where = "original-after-fork-was-edited"
+	if prop == "C16" {
+		c, _, err := rootInfo(s.dir)
+		if err != nil {
+			return eng.V("getnode-error", "GetNode", err.Error(), s.feats("on", where)...)
+		}
+		if !c.Equals(s.shadowCid) {
+			return eng.V("root-cid-changed-without-edit", "", fmt.Sprintf("config %s: directory {%s} had root %s when NewDirectoryFromNode(GetNode()) was taken from it; after edits of that second directory only, its root is %s", s.cfgStr, s.modelKey(), s.shadowCid, c), s.feats("on", where)...)
+		}
+		return nil
+	}
+	links, err := s.dir.Links(ctx)
+	if v := s.compareList("Links", s.dir, listOf(links), err, "on", where); v != nil {
+		return v
+	}
+	for _, n := range pool {
+		t, had := s.model[n.name]
+		g, err := s.dir.Find(ctx, n.name)
+		if v := s.judgeFind("Find", n.name, had, t, g, err); v != nil {
+			v.Features["on"] = where
+			return v
+		}
+	}
+	return nil
 }
 
 // checkedStates remembers the canonical states whose (deterministic, read-only)
@@ -499,6 +545,9 @@ func (s *sys) Ops() []string {
 		}
 	}
 	ops = append(ops, "reload")
+	if s.c.layout == "dyn" && s.shadow == nil {
+		ops = append(ops, "fork")
+	}
 	if h, ok := under(s.dir).(*uio.HAMTDirectory); ok && strings.Contains(h.VerifTreeDump(), "L(") {
 		// Find loads the shards on its path: a state-changing observer
 		for _, n := range pool {
@@ -610,6 +659,34 @@ func (s *sys) Do(op string) (string, *eng.Violation) {
 		if before == "hamt" {
 			s.r.Add("reloads_of_hamt", 1)
 		}
+	case "fork":
+		// NewDirectoryFromNode on the node object GetNode() hands out (no trip through
+		// bytes): the new directory is edited from now on, the old one is kept
+		live, err := s.dir.GetNode()
+		var nd uio.Directory
+		if err == nil {
+			nd, err = uio.NewDirectoryFromNode(s.dserv, live)
+		}
+		if err != nil {
+			s.poisoned = true
+			obs = "err"
+			v = eng.V("reload-error", "NewDirectoryFromNode", fmt.Sprintf("NewDirectoryFromNode(GetNode()) of the %s directory holding {%s} failed: %v", before, s.modelKey(), err), s.feats()...)
+			break
+		}
+		nd.SetMaxLinks(s.c.maxLinks)
+		nd.SetMaxHAMTFanout(s.c.width)
+		nd.SetSizeEstimationMode(s.c.estMode())
+		if t := s.c.threshold(); t > 0 {
+			nd.SetHAMTShardingSize(t)
+		}
+		s.shadow, s.shadowModel, s.shadowCid = s.dir, map[string]int{}, live.Cid()
+		for k, t := range s.model {
+			s.shadowModel[k] = t
+		}
+		s.dir = nd
+		s.reloaded = true
+		obs = "ok"
+		s.r.Add("forks_from_live_node_"+before, 1)
 	case "find":
 		n := byTag[f[1]]
 		t, had := s.model[n.name]
@@ -677,6 +754,12 @@ func (s *sys) Check() *eng.Violation {
 		}
 	}
 	var v *eng.Violation
+	if s.shadow != nil {
+		v = s.checkShadow()
+	}
+	if v != nil {
+		return v
+	}
 	if prop == "C16" {
 		v = s.checkC16()
 	} else {
